@@ -172,6 +172,7 @@ def check_C03(tier, seed):
     q = tier == "quick"
     run_pipeline(res, binary, "sweep", gen_lines=gens.gen_c03_sweep(rng, 64 if q else 300), nshards=8 if q else 16)
     run_pipeline(res, binary, "extreme", gen_lines=gens.gen_c03_extreme(rng, 150 if q else 3000), nshards=4 if q else 16)
+    run_pipeline(res, binary, "leap-only", gen_lines=gens.gen_leap_only_zones(rng, 30 if q else 600), nshards=2 if q else 8)
     run_pipeline(res, binary, "random", gen_lines=events_of(*(gens.gen_zone_session(rng, gens.gen_table_zone(rng, nmax=20), do_find=False) for _ in range(150 if q else 3000))), nshards=8 if q else 16)
     if not q:
         # algorithm layer: the binary search and the forward leap scan, as PlusCal shaped like the Rust, refine the declarative definitions
@@ -240,9 +241,9 @@ def check_find(pid, tier, seed):
         # the recorded finding K1 reproduced at the specification level: on an accepted rule whose yearly periods overlap, the
         # window walk of the algorithm layer (Algo.tla, shaped like find_date_time) returns an entry twice
         res.notes["witnesses"] = [C.expect_violated("MC_Rule", dict(DayIds="{8,729}", TimeIdx="{1,8}", OffIdx="{1}", Years="{3,4}", EmitVec="FALSE", Cycle=5), "W_K1")]
-    if pid == "C06":
-        # unique / earliest / latest are also offered by the buffer-based list: the same zones searched into a reused buffer
-        run_pipeline(res, binary, "zones-buffer", gen_lines=gens.gen_find_zones(rng, 60 if q else 1000, findn=True), nshards=8 if q else 16)
+    if pid in ("C05", "C06"):
+        # the buffer-based search offers the same results and accessors: the same kinds of zones searched into a reused buffer
+        run_pipeline(res, binary, "zones-buffer", gen_lines=gens.gen_find_zones(rng, (40 if pid == "C05" else 60) if q else 1000, findn=True), nshards=8 if q else 16)
     res.notes["rule"] = "vectors: every zone of the scaled model x local seconds -7..14 (expected list and accessors emitted where instants are pairwise distinct); events: seeded valid zones (1..40 transitions, small/tiny/full-range offsets, gaps smaller than offset differences, leap tables, fixed rule), rule-only zones and tables ending at a rule-generated transition (corpus-shaped and seeded DST rules; the four boundary seconds T+a-1, T+a, T+b-1, T+b of every rule transition of three years and of the junction; New Year), searches at the ends of the supported range; local times within one second of every transition +- offset"
     return res.finish()
 
@@ -503,6 +504,15 @@ def check_C08(tier, seed):
     run_pipeline(res, binary, "corpus", gen_lines=gens.gen_corpus_decode(rng, files), nshards=12 if q else 16, min_events=5)
     run_pipeline(res, binary, "corpus-mutations", gen_lines=gens.gen_corpus_mutations(rng, files, 6 if q else 20), nshards=12 if q else 16, min_events=30)
     run_pipeline(res, binary, "synthesised", gen_lines=gens.gen_synth_files(rng, 150 if q else 3000), nshards=12 if q else 16, min_events=10)
+    def by_name():
+        # the same decoding reached by name (TimeZoneSettings): a malformed file must be reported, not replaced by reading its name
+        # as a description - also when the name is itself one (GMT0, UTC0, EST5EDT)
+        for rel in rng.sample(files, min(len(files), 12 if q else 150)):
+            _, data = gens.corpus_event(rel)
+            for content in (data, gens.mutate_file(rng, data), gens.mutate_file(rng, data), data[:rng.randint(0, len(data) - 1)]):
+                name = rng.choice(["GMT0", "UTC0", "EST5EDT", "GMT+0", "Some/Zone", "<-03>3"])
+                yield {"op": "resolve", "a": {"s": C.B(rng.choice(["", ":"]) + name), "dirs": [C.B("/zi")], "vfs": [[C.B("/zi/" + name), list(content)]], "via": "posix"}, "g": 1}
+    run_pipeline(res, binary, "by-name", gen_lines=by_name(), nshards=8, min_events=10)
     res.notes["rule"] = "vectors: small zones written by the TLA+ encoder in v1/v2/v3 (32-bit block of v2+ holds a different zone; shared-suffix and empty designations; all indicator vectors; plain and extended footers) with Decode(Encode(z)) = z model-checked, plus every truncation and single-byte corruption of a share of them with the spec decoder's verdict; events: real tzdata 2025b files (posix and right/ trees) decoded by the TLA+ decoder inside TLC and compared with the crate's zone, and single-field corruptions of real files; synthesised well-formed files of the shapes the corpus lacks (designation tables beyond 256 bytes with names crossing byte 255, suffix designations, up to 200 types, 32-bit blocks of v2+ files that are not valid zones of their own, all indicator combinations, leap tables) and their mutations"
     return res.finish()
 
